@@ -1,7 +1,7 @@
 import PhysisModel.Proofs.MdlEdit
 import PhysisModel.Proofs.MdlFrame
 import PhysisModel.Proofs.MdlRuntimeSize
-import PhysisModel.Proofs.MdlHistory
+import PhysisModel.Proofs.MdlHistory2
 import PhysisModel.Proofs.MdlRelayoutLemmas
 import PhysisModel.Proofs.MdlFlags
 /-!
@@ -14,7 +14,7 @@ Assembly of the pieces:
   `LaidOut` abstract model `a` is written and re-read as `view a`
   (`frame_hyps` + `write_parse_frame`);
 * `edit_then_parse` — after a non-empty history of consistently supplied edits that return, the
-  written file re-parses as `view a'`, `a' = applyEdits a es` (`rep_history`, `history_last`,
+  written file re-parses as `view a'`, `a' = applyEdits a es` (`rep_history2`, `history_last`,
   `rep_relayout`, `view_relayout`, `canonical_relayout`, `laidOut_relayout`).
 -/
 namespace Physis.Mdl
@@ -200,10 +200,11 @@ theorem starts_initial (a : AbstractModel) (h : WF a = true) (hcan : Canonical a
   have hfl := W.fileLen
   exact toUInt32_toNat _ (by omega)
 
-/-- **parse ∘ write ∘ edits ∘ parse** for histories of `replace_vertices` / `remove_shape_meshes` -/
+/-- **parse ∘ write ∘ edits ∘ parse** for histories of `replace_vertices` / `remove_shape_meshes` /
+`add_shape_mesh` calls -/
 theorem edit_then_parse (a : AbstractModel) (h : WF a = true) (hcan : Canonical a = true)
     (v0 : View) (hv0 : view a = some v0) (es : List AEdit) (hne : es ≠ [])
-    (hes : editsOk a es = true) (a' : AbstractModel) (ha' : applyEdits a es = some a')
+    (hes : editsOk2 a es = true) (a' : AbstractModel) (ha' : applyEdits a es = some a')
     (ces : List Edit) (hces : cedits a es = some ces)
     (h' : WF (relayout a') = true) (hcan' : Canonical a' = true) (hne' : usedNonempty a' = true)
     (v : View) (hv : view a' = some v) (mE : MDL)
@@ -212,8 +213,8 @@ theorem edit_then_parse (a : AbstractModel) (h : WF a = true) (hcan : Canonical 
       m1.fileHeader = mE.fileHeader ∧ m1.modelData = mE.modelData ∧ m1.view = v ∧
       headerFlags m1.fileHeader buf.length m1.lods = HeaderFlags.allOk := by
   have hrep0 : Rep a (parsedOf a v0) := rep_initial a h v0 hv0
-  obtain ⟨hrep, hsm⟩ := rep_history (fun hu => updateHeaders_strip hu) es a a' (parsedOf a v0) mE ces
-    (small_of_wf a h) hrep0 hes ha' hces hE
+  obtain ⟨hrep, hsm⟩ := rep_history2 es a a' (parsedOf a v0) mE ces
+    (small_of_wf a h) hrep0 (starts_initial a h hcan v0 hv0) (rep_rangesDisjoint h hrep0) hes ha' hces hE
   have hlc : a'.lodCount = a.lodCount := by
     have e1 : mE.fileHeader.lodCount = a'.lodCount := (congrArg FileHeader.lodCount hrep.fh :)
     have e2 := (history_frame ces (parsedOf a v0) mE hE).lodCount
